@@ -169,6 +169,7 @@ pub fn worker_handle(req: &J) -> J {
             x
         }
         "filter.parse" => crate::ops_filter::worker_parse(req),
+        "filter.weq" => crate::ops_filter::worker_weq(req),
         "capi.begin" | "capi.call" | "capi.end" | "capi.live" | "capi.nullcall" | "capi.selftest" => crate::ops_capi::worker_capi(req),
         _ => json!({"outcome":"err","back":{"k":"null"},"msg":"unknown worker request"}),
     }
